@@ -637,3 +637,58 @@ class XSlicesAgreeSpec(SeqSpec):
 
     def nontrivial(self, case, obs):
         return len(case["cfg"]["l"]) >= 1
+
+
+class SampleStreamSpec(SeqSpec):
+    """xrand.SampleStream owns its stream (C09): closed exactly once, never used after, min(k, n) distinct items."""
+    component = "samplestream"
+    checkers = {}
+
+    def gen(self, rng, tier, scale):
+        n = int((150 if tier == "quick" else 3000) * scale)
+        cases = []
+        for i in range(n):
+            items = list(range(100, 100 + rng.choice([0, 1, 2, 5, 9, 30])))
+            evs = [["item", v] for v in items]
+            if rng.random() < 0.4:
+                pos = rng.randint(0, len(evs))
+                evs = evs[:pos] + [[rng.choice(["fatal", "transient"]), 50 + i % 7]] + evs[pos:]
+            cases.append({"component": "samplestream", "ops": [],
+                          "cfg": {"evs": evs, "k": rng.choice([0, 1, 2, 5, 40]), "live": rng.random() < 0.85, "seed": rng.randrange(1 << 30)}})
+        return cases
+
+    def shrinkable(self):
+        return False
+
+    def coq_case(self, case, obs):
+        return ""
+
+    def oracle(self, case, obs):
+        fails = []
+        res, pulls = obs["obs"][0]
+        log = obs.get("aux", {}).get("log", [])
+        closes = sum(1 for e in log if e[0] == "close")
+        if res[0] == "panic":
+            fails.append(("samplestream-panic", "SampleStream panicked on %r" % (case["cfg"],)))
+        if closes != 1:
+            fails.append(("samplestream-close-count", "the stream handed to SampleStream was closed %d times (log %r)" % (closes, log)))
+        seen_close = False
+        for e in log:
+            if e[0] == "close":
+                seen_close = True
+            elif seen_close:
+                fails.append(("samplestream-use-after-close", "Next after Close (log %r)" % (log,)))
+                break
+        cfg = case["cfg"]
+        faulty = any(e[0] != "item" for e in cfg["evs"])
+        items = [e[1] for e in cfg["evs"] if e[0] == "item"]
+        if res[0] == "val" and not faulty and cfg["live"]:
+            want = min(max(cfg["k"], 0), len(items))
+            if len(res[1]) != want or len(set(res[1])) != len(res[1]) or any(x not in items for x in res[1]):
+                fails.append(("samplestream-structure", "k=%d over %d items returned %r" % (cfg["k"], len(items), res[1])))
+        if faulty and cfg["live"] and res[0] == "val" and any(e[0] == "fatal" for e in cfg["evs"]):
+            fails.append(("samplestream-error-swallowed", "the source failed fatally but SampleStream returned %r" % (res,)))
+        return fails
+
+    def nontrivial(self, case, obs):
+        return len(case["cfg"]["evs"]) >= 1
